@@ -30,6 +30,22 @@ GUARD_DEPENDANTS = ["gtt", "gtx", "gdet", "gxx", "gxy", "gzz", "kxx", "kyz",
                     "st_Riemann_uddd4", "st_Riemann_uudd4", "Psi4_lm",
                     "Hamiltonian", "dtKtrace", "accelerationdown4", "theta"]
 
+def _func_names():
+    """public AurelCore methods that take arguments (a bracket request hands
+    back the bound method)"""
+    import inspect
+    out = []
+    for n, f in inspect.getmembers(aurel.AurelCore, inspect.isfunction):
+        if n.startswith("_") or n in descriptions:
+            continue
+        if f.__code__.co_argcount > 1 and n not in (
+                "load_data", "myprint"):
+            out.append(n)
+    return sorted(out)
+
+
+FUNC_NAMES = _func_names()
+
 HELPERS = {
     "s_covd": ["", "u", "d", "uu", "dd", "ud", "du"],
     "s_div": ["u", "d", "uu", "dd", "ud", "du"],
@@ -171,6 +187,17 @@ class World:
         """Execute one op on `rel`; returns the value (exceptions propagate)."""
         if op["op"] == "get":
             return rel[op["key"]]
+        if op["op"] == "freeze":
+            # public API: everything cached so far becomes frozen
+            rel.freeze_data()
+            return np.zeros(())
+        if op["op"] == "getfunc":
+            # bracket request for a method that takes arguments: documented
+            # to hand back the function itself (nothing is cached)
+            f = rel[op["name"]]
+            if not callable(f):
+                raise TypeError(f"rel[{op['name']!r}] is not callable")
+            return np.ones(())
         h, ix = op["helper"], op["ix"]
         args = self.helper_args(op, fd)
         if h in ("tetrad_base", "null_vector_base", "levicivita_down3",
@@ -287,7 +314,8 @@ def strategies():
     f = S["f"]
 
     @st.composite
-    def config(draw, aggressive=False, with_importance=False):
+    def config(draw, aggressive=False, with_importance=False,
+               loose_flags=False):
         kind = draw(st.sampled_from(["Wp", "Wp", "Wn", "Wn", "KS", "PP", "F",
                                      "FL"]))
         order = draw(st.sampled_from([2, 4, 4, 4]))
@@ -328,6 +356,13 @@ def strategies():
             matter = "Tdown4"
         if matter in ("Tdown4", "fluid") and draw(st.booleans()):
             Lambda = draw(f(-0.3, 0.3))
+        if loose_flags and draw(st.integers(0, 2)) == 0:
+            # the constructor flags need not describe the data (digest and
+            # bookkeeping oracles do not look at values): vacuum=True on any
+            # spacetime, with or without a cosmological constant
+            vacuum = True
+            matter = "none"
+            Lambda = draw(st.sampled_from([0.0, 0.25, -0.1]))
         form = draw(st.sampled_from(["components", "tensors"]))
         if form == "components":
             if fam == "PP" and draw(st.booleans()):
@@ -393,7 +428,14 @@ def strategies():
             op["weight"] = draw(st.sampled_from([0, 0, 1.0, -2 / 3, 1 / 6]))
         return op
 
-    return dict(config=config, get_op=get_op, helper_op=helper_op)
+    def misc_op():
+        return st.one_of(
+            [st.sampled_from(FUNC_NAMES).map(
+                lambda n: dict(op="getfunc", name=n))] * 7
+            + [get_op()] * 8 + [st.just(dict(op="freeze"))])
+
+    return dict(config=config, get_op=get_op, helper_op=helper_op,
+                misc_op=misc_op)
 
 
 # ---------------------------------------------------------------------------
@@ -499,6 +541,10 @@ class Run:
 
     # -- the step ----------------------------------------------------------
     def name(self, op):
+        if op["op"] == "freeze":
+            return "freeze_data()"
+        if op["op"] == "getfunc":
+            return f"[{op['name']}]"
         return op["key"] if op["op"] == "get" else \
             f"{op['helper']}({op['ix']})"
 
@@ -531,9 +577,17 @@ class Run:
             self.evictions += 1
             self.cleanups_removed += 1 if any(
                 k in after for k in self.inputs) else 0
-        self.cls("op:get" if op["op"] == "get" else "op:helper")
+        self.cls("op:" + op["op"])
         if was_cached:
             self.cls("cache-hit")
+        if op["op"] == "freeze" and a[0] == "ok":
+            # from now on these entries are frozen too
+            for k, v in rel.data.items():
+                if k not in self.frozen and isinstance(v, np.ndarray) \
+                        and v.dtype != object:
+                    self.frozen[k] = (v, digest(v))
+                    if k not in self.inputs:
+                        self.cls("computed-entry-frozen")
 
         if self.mode == "values":
             self.check_value(op, nm, a, fails)
@@ -702,6 +756,10 @@ def make_machine(mode, cfg_kwargs, stats, excluded, last, ctl):
 
         @rule(op=S["helper_op"]())
         def helper(self, op):
+            self._step(op)
+
+        @rule(op=S["misc_op"]())
+        def misc(self, op):
             self._step(op)
 
         @precondition(lambda self: self.run is not None and self.run.log)
